@@ -815,6 +815,11 @@ func c08Check(c c08Case) *kit.Fail {
 				for _, f := range benchproc.NonSingularFields(ks) {
 					gotNames = append(gotNames, f.Name)
 				}
+				// compared as sets: the statement says nothing about the order in
+				// which the differing fields are listed (a benign change that sorts
+				// them by name fired here - false alarm corrected, DESIGN.md 9.5)
+				sort.Strings(gotNames)
+				sort.Strings(wantNames)
 				if strings.Join(gotNames, "\x00") != strings.Join(wantNames, "\x00") {
 					return kit.Failf("nonsingular-wrong", "%s: NonSingularFields=%q want %q", pr.label, gotNames, wantNames)
 				}
